@@ -425,6 +425,9 @@ def spec_configs(comp, items):
         k = it[0]
         if k == "D":
             lists["defines"].append(it[1])
+        elif k == "U":
+            # -U NAME cancels the definitions of NAME made so far on the command line (not what modes / passes add later)
+            lists["defines"] = [d for d in lists["defines"] if re.split(r"[=(]", d, 1)[0] != it[1]]
         elif k == "I":
             lists["include_paths"].append(it[1])
         elif k == "isystem":
@@ -494,6 +497,8 @@ def render(items, rules):
         k = it[0]
         if k == "D":
             argv += ["-D" + it[1]] if it[2] else ["-D", it[1]]
+        elif k == "U":
+            argv += ["-U" + it[1]] if it[2] else ["-U", it[1]]
         elif k == "I":
             argv += ["-I" + it[1]] if it[2] else ["-I", it[1]]
         elif k == "isystem":
@@ -732,6 +737,8 @@ def fixed_items(rng):
         c = rng.random()
         if c < 0.4:
             out.append(("D", rng.choice(["A", "B=2", "SHARED=1", "M1=5", "_OPENMP=1"]), rng.random() < 0.7))
+        elif c < 0.48:
+            out.append(("U", rng.choice(["A", "B", "SHARED", "M1", "_OPENMP"]), rng.random() < 0.7))
         elif c < 0.6:
             out.append(("I", rng.choice(["inc", "/abs/inc", "src/util"]), rng.random() < 0.6))
         elif c < 0.7:
@@ -743,7 +750,7 @@ def fixed_items(rng):
     return out
 
 
-WILD = ["-DA", "-D", "A=1", "-I", "inc", "-Iinc", "-isystem", "sys", "-include", "f.h", "-O2", "-O", "-o", "x.o", "-c", "-g", "-g3", "-ggdb",
+WILD = ["-DA", "-D", "A=1", "-UA", "-U", "A", "-I", "inc", "-Iinc", "-isystem", "sys", "-include", "f.h", "-O2", "-O", "-o", "x.o", "-c", "-g", "-g3", "-ggdb",
         "x.c", "y.c", "-Wall", "-std=c++17", "-", "-1", "-i", "-is", "-in", "-isystem=q", "-I=r", "a b", "-fopenmp", "-fopen", "-fsycl",
         "-fsycl-targets=spir64,spir64_gen", "-fsycl-targets", "spir64_x86_64", "--gpu-architecture=sm_80", "-gencode", "arch=compute_75,code=sm_75",
         "--gpu-code=sm_90,sm_70", "-fsycl-is-device", "-fsyc", "", "-xy", "-yx", "-x1", "-fmode", "-fmode1=", "--long", "--long-a=1", "-march", "-march=sm_70",
@@ -1004,12 +1011,12 @@ def items_of_argv(args, rules):
         elif "=" in a and a.split("=", 1)[0] in valued:
             f, v = a.split("=", 1)
             out.append(("rule", valued[f], f, v, "eq"))
-        elif a in ("-D", "-I", "-isystem", "-include"):
+        elif a in ("-D", "-I", "-isystem", "-include", "-U"):
             if nxt is None or nxt.startswith("-"):
                 return None
-            out.append(({"-D": "D", "-I": "I", "-isystem": "isystem", "-include": "include"}[a], nxt, False))
+            out.append(({"-D": "D", "-I": "I", "-isystem": "isystem", "-include": "include", "-U": "U"}[a], nxt, False))
             k += 1
-        elif a.startswith("-D") or a.startswith("-I"):
+        elif a.startswith("-D") or a.startswith("-I") or a.startswith("-U"):
             out.append((a[1], a[2:], True))
         else:
             return None
